@@ -1004,7 +1004,10 @@ def gc_post(full):
         S0, S1 = c.S0, c.S1
         out = wf(S1, None) + gc_common(S0, S1) + [
             ('held-nodes-survive', ForAll([x_], Implies(And(S0.dom[x_], S0.ext[x_] > 0), S1.dom[x_]), patterns=[S0.dom[x_]])),
-            ('computed-table-emptied', ForAll([M._t], Not(S1.ch[M._t]), patterns=[S1.ch[M._t]]))]
+            # (the code empties the table; what the property needs is that nothing remembered refers to a freed node - clause W7 of
+            # WF(S1) above - so a pruning that also checks the operands of an entry would be accepted: only "nothing new" is asked)
+            ('computed-table-not-extended', ForAll([M._t], Implies(S1.ch[M._t], And(S0.ch[M._t], S1.cv[M._t] == S0.cv[M._t])),
+                                                   patterns=[S1.ch[M._t]]))]
         if full:
             out.append(('no-unreferenced-node-left', ForAll([x_], Implies(And(S1.dom[x_], x_ > 1), S1.ref[x_] > 0), patterns=[S1.dom[x_]])))
         return out
